@@ -117,6 +117,17 @@ def judge(world):
     judge_overrun(world, h)
 
 
+def _app_validator_at(world, t):
+    """-> (spec of the application-wide Interest validator in force at time t, or None for the library default; too close to call)"""
+    vs = world.scenario.get('app_int_validator')
+    at = world.scenario.get('app_int_validator_at')
+    if vs is None or at is None:
+        return vs, False
+    if abs(t - at) <= W_US + (vs.get('latency_us', 0) if t < at else 0):
+        return None, True
+    return (vs if t > at else None), False
+
+
 def judge_overrun(world, h):
     """A packet in which an element runs over the end of its parent is malformed; the library's decoder clips the value
     silently (TlvModel.parse documents IndexError for it).  Reported when such a packet completed an Interest with its
@@ -596,7 +607,13 @@ def judge_producer(world, h, relaxed):
                 elif c['signed']:
                     vs = aop.get('validator')
                     if vs is None:
-                        vs = world.scenario.get('app_int_validator')
+                        # the application's default validator - the one IN FORCE when the Interest arrives: the application
+                        # may install it after the route
+                        vs, near = _app_validator_at(world, t)
+                        if near:
+                            world.ambiguous += 1
+                            skip_keys.add(key_n)
+                            continue
                         who = 'appdefault'
                     else:
                         who = hid
@@ -685,8 +702,10 @@ def judge_producer(world, h, relaxed):
             if not c.get('signed'):
                 continue                    # legacy front-end: unsigned parameterised Interests get the digest check only
             if vs is None:
-                vs = world.scenario.get('app_int_validator')
+                vs, near = _app_validator_at(world, arr[0])
                 who = ('appdefault',)
+                if near:
+                    continue
             if vs is None:
                 continue                    # library default checker
         accepting = vs is not None and not vs.get('raise') and \
